@@ -1758,6 +1758,140 @@ theorem waits_run {c : Cfg} {s s' : St} {es : List Ev} (h : run c s es = some s'
           rw [List.count_cons_of_ne h1]
         rw [hc, ← h2]; exact this
 
+/-! ## handles left inside the `Child` -/
+
+/-- a reader that waits for the wait finishes (= the handle is dropped) only after the wait -/
+def HeldAfterWait (c : Cfg) (s : St) : Prop :=
+  (c.plan.deps .Ro .Wt = true → s.routDone = true → s.wt.isDone = true) ∧
+  (c.plan.deps .Re .Wt = true → s.rerrDone = true → s.wt.isDone = true)
+
+theorem heldAfterWait_step {c : Cfg} {s s' : St} {e : Ev} (hh : HeldAfterWait c s) (h : step c s e = some s') :
+    HeldAfterWait c s' := by
+  obtain ⟨h1, h2⟩ := hh
+  have hmono : s.wt.isDone = true → s'.wt.isDone = true := by
+    intro hd
+    rcases step_wt h with ⟨-, hf, -⟩ | ⟨-, he⟩
+    · rw [hd] at hf; cases hf
+    · rw [he]; exact hd
+  cases e with
+  | rdEof d =>
+    cases d with
+    | out =>
+      obtain ⟨g1, -, -, -, -, rfl⟩ := stepRdEof_out_some h
+      refine ⟨fun hd _ => ?_, h2⟩
+      simp only [depsOk, St.done, hd, Bool.not_true, Bool.false_or, Bool.and_eq_true] at g1
+      exact g1.2
+    | err =>
+      obtain ⟨g1, -, -, -, -, rfl⟩ := stepRdEof_err_some h
+      refine ⟨h1, fun hd _ => ?_⟩
+      simp only [depsOk, St.done, hd, Bool.not_true, Bool.false_or, Bool.and_eq_true] at g1
+      exact g1.2
+    | null => simp [step, stepRdEof_null] at h
+  | wr k => obtain ⟨-, -, -, -, -, -, -, -, rfl⟩ := stepWr_some h; exact ⟨h1, h2⟩
+  | wrEpipe => obtain ⟨-, -, -, -, -, rfl⟩ := stepWrEpipe_some h; exact ⟨h1, h2⟩
+  | wclose => obtain ⟨-, -, -, -, rfl⟩ := stepWclose_some h; exact ⟨h1, h2⟩
+  | rd d k =>
+    cases d with
+    | out => obtain ⟨-, -, -, -, -, -, rfl⟩ := stepRd_out_some h; exact ⟨h1, h2⟩
+    | err => obtain ⟨-, -, -, -, -, -, rfl⟩ := stepRd_err_some h; exact ⟨h1, h2⟩
+    | null => simp [step, stepRd_null] at h
+  | wtStart =>
+    have hm := hmono
+    obtain ⟨-, -, -, rfl⟩ := stepWtStart_some h
+    exact ⟨fun a b => hm (h1 a b), fun a b => hm (h2 a b)⟩
+  | wtReady =>
+    have hm := hmono
+    obtain ⟨-, -, -, -, -, rfl⟩ := stepWtReady_some h
+    exact ⟨fun a b => hm (h1 a b), fun a b => hm (h2 a b)⟩
+  | wtTake =>
+    have hm := hmono
+    obtain ⟨-, -, -, -, -, rfl⟩ := stepWtTake_some h
+    exact ⟨fun a b => hm (h1 a b), fun a b => hm (h2 a b)⟩
+  | wtDone =>
+    obtain ⟨-, -, -, st, -, rfl⟩ := stepWtDone_some h
+    exact ⟨fun _ _ => rfl, fun _ _ => rfl⟩
+  | cRead k =>
+    obtain ⟨-, -, lim, blk, dst, r, -, -, -, -, -, rfl⟩ := stepCRead_some (c := c) h
+    cases dst <;> exact ⟨h1, h2⟩
+  | cEof => obtain ⟨-, -, -, -, lim, blk, dst, r, -, -, rfl⟩ := stepCEof_some (c := c) h; exact ⟨h1, h2⟩
+  | cWrite k =>
+    obtain ⟨-, -, -, hh⟩ := stepCWrite_some h
+    rcases hh with ⟨-, -, rfl⟩ | ⟨-, -, rfl⟩ <;> exact ⟨h1, h2⟩
+  | cStep =>
+    obtain ⟨-, -, hcs⟩ := stepCStep_some (c := c) h
+    cases hcs with
+    | fallOff hs h => subst h; exact ⟨h1, h2⟩
+    | copyDone blk' dst r hs h => subst h; exact ⟨h1, h2⟩
+    | emitNull bs r hs h => subst h; exact ⟨h1, h2⟩
+    | emit d bs r hs hd h => subst h; exact ⟨h1, h2⟩
+    | nop r hs h => subst h; exact ⟨h1, h2⟩
+    | exit code r hs h => subst h; exact ⟨h1, h2⟩
+    | kill sg r hs h => subst h; exact ⟨h1, h2⟩
+
+theorem heldAfterWait_run {c : Cfg} {s s' : St} {es : List Ev} (hh : HeldAfterWait c s) (h : run c s es = some s') :
+    HeldAfterWait c s' := by
+  induction es generalizing s with
+  | nil => simp [run] at h; subst h; exact hh
+  | cons e es ih =>
+    simp only [run_cons] at h
+    cases hs : step c s e with
+    | none => simp [hs] at h
+    | some s2 => simp only [hs] at h; exact ih (heldAfterWait_step hh hs) h
+
+theorem heldAfterWait_init (c : Cfg) (script : List CAct) (payload : Bytes) (b : Bool) :
+    HeldAfterWait c (init script payload b) := by
+  constructor <;> intro _ h <;> simp [init] at h
+
+/-- one stream: the child is not blocked writing to it -/
+theorem not_jammed_out_of_fits {c : Cfg} {p : Bytes} {s : St} (hi : Inv c p s)
+    (ho : (den s).out.length ≤ c.capOut) : ¬ (s.status = none ∧ s.pend ≠ [] ∧ s.pdst = .out ∧ s.nout = c.capOut) := by
+  rintro ⟨hst, hpe, hd, hf⟩
+  obtain ⟨b1, -⟩ := out_le_den hst
+  have hl : 0 < s.pend.length := List.length_pos_iff.mpr hpe
+  have e := congrArg List.length hi.outs
+  have := hi.nout
+  simp only [List.length_append] at e
+  simp only [pendFor, hd, if_true] at b1
+  omega
+
+theorem not_jammed_err_of_fits {c : Cfg} {p : Bytes} {s : St} (hi : Inv c p s)
+    (he : (den s).err.length ≤ c.capErr) : ¬ (s.status = none ∧ s.pend ≠ [] ∧ s.pdst = .err ∧ s.nerr = c.capErr) := by
+  rintro ⟨hst, hpe, hd, hf⟩
+  obtain ⟨-, b2⟩ := out_le_den hst
+  have hl : 0 < s.pend.length := List.length_pos_iff.mpr hpe
+  have e := congrArg List.length hi.errs
+  have := hi.nerr
+  simp only [List.length_append] at e
+  simp only [pendFor, hd, if_true] at b2
+  omega
+
+/-- (E) per stream: either its reader is free, or what the child writes to it fits into the pipe
+(a handle left inside the `Child` is such a stream) -/
+theorem stuck_completed_mixed {c : Cfg} {p : Bytes} {s : St} (hp : c.Pos) (hi : Inv c p s)
+    (hw : wfScript s.script = true) (hnb : c.blocking = false) (hW : ∀ x, c.plan.deps .W x = false)
+    (ho : (∀ x, c.plan.deps .Ro x = false) ∨ (den s).out.length ≤ c.capOut)
+    (he : (∀ x, c.plan.deps .Re x = false) ∨ (den s).err.length ≤ c.capErr)
+    (hs : Stuck c s) : s.completed = true := by
+  cases hn : s.completed with
+  | true => rfl
+  | false =>
+    exfalso
+    refine not_stuck_of_canStep (progress hp hi hw hn ?_ ?_) hs
+    · intro hj
+      have hb := hi.wblockNB hnb
+      obtain ⟨hst, hpe, hh⟩ := hj
+      rcases hh with ⟨hd, hf⟩ | ⟨hd, hf⟩
+      · rcases ho with ho | ho
+        · exact jam_reader hp hi ⟨hst, hpe, Or.inl ⟨hd, hf⟩⟩ hb (fun _ => depsOk_free ho)
+            (fun h => by rw [hd] at h; cases h)
+        · exact absurd ⟨hst, hpe, hd, hf⟩ (not_jammed_out_of_fits hi ho)
+      · rcases he with he | he
+        · exact jam_reader hp hi ⟨hst, hpe, Or.inr ⟨hd, hf⟩⟩ hb (fun h => by rw [hd] at h; cases h)
+            (fun _ => depsOk_free he)
+        · exact absurd ⟨hst, hpe, hd, hf⟩ (not_jammed_err_of_fits hi he)
+    · intro hst
+      exact starve_writer hp hi hst (depsOk_free hW)
+
 /-! ## configurations used by the non-vacuity examples -/
 
 /-- 2-byte pipes, io_uring, everything concurrent -/
